@@ -66,6 +66,19 @@ pub fn extra_command(cmd: &str, args: &[String]) -> bool {
             }
             true
         }
+        "roundtrip" => {
+            // debugging aid: parse a text with the real parser, print it, read it back
+            let text = args.join(" ");
+            crate::bind::with_front(&text, &[], 2, |f| match f {
+                crate::bind::Front::TypeErr { term, .. } | crate::bind::Front::Ok { term, .. } => {
+                    println!("parsed:  {}", crate::model::mterm::mirror(term).show());
+                    println!("printed: {term}");
+                    println!("round trip ok: {}", crate::props::c16::round_trip(&text, term, &[]));
+                }
+                other => println!("not parsed: {}", other.stage_name()),
+            });
+            true
+        }
         "count-slices" => {
             let g = crate::model::grammar::Grammar::load();
             let max: usize = args.first().and_then(|a| a.parse().ok()).unwrap_or(13);
